@@ -1,5 +1,7 @@
 #!/usr/bin/env python3
-"""C08_switch.py <xor2-wide-result|equal-wider-b|priority-encoder-docstring> <commit> [--verif DIR]
+"""C08_switch.py <xor2-wide-result|equal-wider-b|priority-encoder-docstring|nor-mid-width> <commit> [--verif DIR]
+(nor-mid-width: the models take the REAL width of Nor / Nor2's Mid wire, read per configuration; C08_nor_any_mid / C08_nor2_any_mid cover the repaired width;
+ once the entry is "fixed" the catalogue sweeps every mix of widths.)
 
 Run once per finding, right after fixes/C08-<id>.diff has been committed in /repo (commit order: xor2-wide-result BEFORE
 equal-wider-b).  NOTHING in the Coq development has to change: Model/StructLogic.v is parametric in the two width formulas
@@ -16,7 +18,7 @@ verif = '/verif'
 if '--verif' in args:
     i = args.index('--verif'); verif = args[i + 1]; del args[i:i + 2]
 fid, commit = args[0], (args[1] if len(args) > 1 else None)
-ID = {'xor2-wide-result': 'C08-xor2-wide-result', 'equal-wider-b': 'C08-equal-wider-b', 'priority-encoder-docstring': 'C08-priority-encoder-docstring'}[fid]
+ID = {'nor-mid-width': 'C08-nor-mid-width', 'xor2-wide-result': 'C08-xor2-wide-result', 'equal-wider-b': 'C08-equal-wider-b', 'priority-encoder-docstring': 'C08-priority-encoder-docstring'}[fid]
 p = os.path.join(verif, 'known_findings', 'C08.json')
 d = json.load(open(p))
 hit = [f for f in d['findings'] if f['id'] == ID]
